@@ -65,3 +65,21 @@ Definition complies (f : lockfact) : bool :=
   end.
 
 Definition violations : list lockfact := filter (fun f => negb (complies f)) lock_facts.
+
+(* non-vacuity of the compliance check: the translator found accesses to every field the
+   discipline names, writes among them, and the implementation calls / channel operations *)
+Definition protected_fields : list (string * string) :=
+  [("Conn","reqs"); ("Conn","fidpool"); ("SrvReq","status"); ("SrvReq","prev"); ("SrvReq","next");
+   ("SrvReq","flushreq"); ("SrvReq","flushnext"); ("SrvFid","refcount"); ("Srv","conns");
+   ("Clnt","reqfirst"); ("Clnt","reqlast"); ("Clnt","err"); ("Req","prev"); ("Req","next");
+   ("osUsers","users"); ("osUsers","groups")].
+
+Definition is_access (k : akind) : bool := match k with AR | AW => true | _ => false end.
+Definition is_write (k : akind) : bool := match k with AW => true | _ => false end.
+
+Definition covered (sf : string * string) : bool :=
+  existsb (fun f => is_write (lf_kind f) && String.eqb (lf_struct f) (fst sf) && String.eqb (lf_field f) (snd sf)
+                    && match protection (fst sf) (snd sf) with
+                       | ByLock owner same => holds owner same (lf_base f) (lf_locks f) | Exempt _ => false end) lock_facts.
+
+Definition count_kind (p : akind -> bool) : nat := length (filter (fun f => p (lf_kind f)) lock_facts).
